@@ -15,50 +15,47 @@ From Verif Require Import Base.GoInt Base.GoSort Base.GoSortSpec Strategy.Model 
 Local Open Scope Z_scope.
 
 (* full statement, all five strategies, all tables / counts / limits / totals *)
-Theorem C01_plans_sound : forall infos need limit total,
+Theorem C01_plans_sound :
+  forall infos need limit total,
   valid_infos infos -> 0 < need -> 0 <= limit ->
   forall s p, is_plan (deploy s need limit infos total) p -> C01_spec s need limit infos p.
 Proof. exact C01_sound. Qed.
 Print Assumptions C01_plans_sound.
 
+(* EACH / FILL / DRAINED for every sorted permutation sort.Slice may produce *)
 (* the sort-based strategies for EVERY sorted permutation sort.Slice may produce *)
-Theorem C01_each_any_sorted_order : forall infos sorted need limit,
+Theorem C01_any_sorted_order :
+  (forall infos sorted need limit,
   valid_infos infos -> Permutation infos sorted -> Sorted (ngt each_less) sorted -> 0 < need -> 0 <= limit ->
-  forall p, each_from sorted need (each_limit infos limit) = Ok p -> C01_spec Each need limit infos p.
-Proof. exact each_C01. Qed.
-Print Assumptions C01_each_any_sorted_order.
-
-Theorem C01_fill_any_sorted_order : forall infos sorted need limit,
+  forall p, each_from sorted need (each_limit infos limit) = Ok p -> C01_spec Each need limit infos p) /\
+  (forall infos sorted need limit,
   valid_infos infos -> Permutation infos sorted -> Sorted (ngt fill_less) sorted -> 0 <= limit ->
   forall r p, fill_from sorted need (each_limit infos limit) = r -> is_plan r p ->
-  C01_spec Fill need limit infos p /\ (r = AlreadyFilled p -> plan_sum p = 0).
-Proof. exact fill_C01. Qed.
-Print Assumptions C01_fill_any_sorted_order.
-
-Theorem C01_drained_any_sorted_order : forall infos sorted need total,
+  C01_spec Fill need limit infos p /\ (r = AlreadyFilled p -> plan_sum p = 0)) /\
+  (forall infos sorted need total,
   valid_infos infos -> Permutation infos sorted -> Sorted (ngt drained_less) sorted -> 0 < need ->
-  forall p limit, drained_from sorted need total = Ok p -> C01_spec Drained need limit infos p.
-Proof. exact drained_C01_limit. Qed.
-Print Assumptions C01_drained_any_sorted_order.
+  forall p limit, drained_from sorted need total = Ok p -> C01_spec Drained need limit infos p).
+Proof. exact (conj each_C01 (conj fill_C01 drained_C01_limit)). Qed.
+Print Assumptions C01_any_sorted_order.
 
 (* ErrAlreadyFilled is returned only by FILL and plans nothing *)
-Theorem C01_already_filled : forall infos need limit total,
+Theorem C01_already_filled :
+  forall infos need limit total,
   valid_infos infos -> 0 < need -> 0 <= limit ->
   forall s p, deploy s need limit infos total = AlreadyFilled p -> s = Fill /\ plan_sum p = 0.
 Proof. exact already_filled_fill. Qed.
 Print Assumptions C01_already_filled.
 
+(* the boolean check decides the specification, and the model's output passes it *)
 (* the boolean check evaluated on the implementation's output decides the specification ... *)
-Theorem C01_ok_reflects : forall s need limit infos p,
-  C01_plan_ok s need limit infos p = true <-> C01_spec s need limit infos p.
-Proof. exact C01_reflect. Qed.
-Print Assumptions C01_ok_reflects.
-
 (* ... and the model's own output always passes it *)
-Theorem C01_ok_sound_on_model : forall s need limit infos total ord,
-  C01_ok (mkCase s need limit infos total (deploy s need limit infos total) ord) = true.
-Proof. exact C01_ok_model. Qed.
-Print Assumptions C01_ok_sound_on_model.
+Theorem C01_ok_reflects_and_sound :
+  (forall s need limit infos p,
+  C01_plan_ok s need limit infos p = true <-> C01_spec s need limit infos p) /\
+  (forall s need limit infos total ord,
+  C01_ok (mkCase s need limit infos total (deploy s need limit infos total) ord) = true).
+Proof. exact (conj C01_reflect C01_ok_model). Qed.
+Print Assumptions C01_ok_reflects_and_sound.
 
 (* non-vacuity: a valid table on which every strategy returns a plan *)
 Theorem C01_hypotheses_satisfiable :
@@ -75,57 +72,66 @@ Print Assumptions C01_hypotheses_satisfiable.
 
 (* through the glue doGetDeployStrategy (cluster/calcium/resource.go), for every
    iteration order of the capacity map *)
-Theorem C01_glue : forall caps order status need limit total,
+Theorem C01_glue :
+  forall caps order status need limit total,
   valid_caps caps status -> Permutation caps order -> 0 < need -> 0 <= limit ->
   forall s p, glue s need limit order status total = Ok p ->
   C01_spec s need limit (glue_infos order status) p.
 Proof. exact glue_C01. Qed.
 Print Assumptions C01_glue.
 
+(* comparison modulo ties: projection and outcome class are the same for all sorted permutations *)
 (* The comparison "modulo ties" the correspondence check uses for slices longer
    than 12 (unstable pdqsort) is well defined: any two sorted permutations give the
    same multiset of projected tuples (attributes the strategy reads, plan entry). *)
-Theorem C01_each_projection_invariant : forall infos s1 s2 need limit,
+(* ... and the outcome class (plan / already filled / which refusal) does not depend
+   on the sorted permutation either *)
+Theorem C01_ties_well_defined :
+  (forall infos s1 s2 need limit,
   valid_infos infos -> Permutation infos s1 -> Permutation infos s2 ->
   Sorted (ngt each_less) s1 -> Sorted (ngt each_less) s2 -> 0 <= limit ->
   forall p1 p2, each_from s1 need (each_limit infos limit) = Ok p1 ->
   each_from s2 need (each_limit infos limit) = Ok p2 ->
-  Permutation (map (proj Each p1) infos) (map (proj Each p2) infos).
-Proof. exact each_proj_invariant. Qed.
-Print Assumptions C01_each_projection_invariant.
-
-Theorem C01_fill_projection_invariant : forall infos s1 s2 need limit,
+  Permutation (map (proj Each p1) infos) (map (proj Each p2) infos)) /\
+  (forall infos s1 s2 need limit,
   valid_infos infos -> Permutation infos s1 -> Permutation infos s2 ->
   Sorted (ngt fill_less) s1 -> Sorted (ngt fill_less) s2 -> 0 <= limit ->
   forall r1 r2 p1 p2, fill_from s1 need (each_limit infos limit) = r1 -> is_plan r1 p1 ->
   fill_from s2 need (each_limit infos limit) = r2 -> is_plan r2 p2 ->
-  Permutation (map (proj Fill p1) infos) (map (proj Fill p2) infos).
-Proof. exact fill_proj_invariant. Qed.
-Print Assumptions C01_fill_projection_invariant.
-
-Theorem C01_drained_projection_invariant : forall infos s1 s2 need total,
+  Permutation (map (proj Fill p1) infos) (map (proj Fill p2) infos)) /\
+  (forall infos s1 s2 need total,
   valid_infos infos -> (forall x, In x infos -> GoFloat.f_finite (usage x) = true) ->
   Permutation infos s1 -> Permutation infos s2 ->
   Sorted (ngt drained_less) s1 -> Sorted (ngt drained_less) s2 -> 0 < need ->
   forall p1 p2, drained_from s1 need total = Ok p1 -> drained_from s2 need total = Ok p2 ->
-  Permutation (map (proj Drained p1) infos) (map (proj Drained p2) infos).
-Proof. exact drained_proj_invariant. Qed.
-Print Assumptions C01_drained_projection_invariant.
+  Permutation (map (proj Drained p1) infos) (map (proj Drained p2) infos)) /\
+  (forall infos s1 s2 need limit,
+  Permutation infos s1 -> Permutation infos s2 ->
+  Sorted (ngt each_less) s1 -> Sorted (ngt each_less) s2 -> 0 <= limit ->
+  res_class_eqb (each_from s1 need (each_limit infos limit)) (each_from s2 need (each_limit infos limit)) = true) /\
+  (forall infos s1 s2 need limit,
+  valid_infos infos -> Permutation infos s1 -> Permutation infos s2 ->
+  Sorted (ngt fill_less) s1 -> Sorted (ngt fill_less) s2 -> 0 <= limit ->
+  res_class_eqb (fill_from s1 need (each_limit infos limit)) (fill_from s2 need (each_limit infos limit)) = true) /\
+  (forall infos s1 s2 need total,
+  valid_infos infos -> Permutation infos s1 -> Permutation infos s2 -> 0 < need ->
+  res_class_eqb (drained_from s1 need total) (drained_from s2 need total) = true).
+Proof. exact (conj each_proj_invariant (conj fill_proj_invariant (conj drained_proj_invariant (conj each_class_invariant (conj fill_class_invariant drained_class_invariant))))). Qed.
+Print Assumptions C01_ties_well_defined.
 
+(* int64 twin equals the Z model on the domain; the theorem for the twin *)
 (* ---- int64 ---- the twin model with every + and - wrapped to int64 (the one the
    correspondence check runs) equals the Z model on the domain; so the theorem also
    holds for the int64 twin there, and the domain conditions are needed *)
-Theorem C01_int64_twin_equal : forall s need limit infos total,
+Theorem C01_int64 :
+  (forall s need limit infos total,
   NoDup (names infos) -> dom64 s need limit infos ->
-  deploy_fullW s need limit infos total = deploy_full s need limit infos total.
-Proof. exact deploy_fullW_eq. Qed.
-Print Assumptions C01_int64_twin_equal.
-
-Theorem C01_plans_sound_int64 : forall s need limit infos total,
+  deploy_fullW s need limit infos total = deploy_full s need limit infos total) /\
+  (forall s need limit infos total,
   NoDup (names infos) -> dom64 s need limit infos ->
-  forall p, is_plan (deployW s need limit infos total) p -> C01_spec s need limit infos p.
-Proof. exact C01_sound_W. Qed.
-Print Assumptions C01_plans_sound_int64.
+  forall p, is_plan (deployW s need limit infos total) p -> C01_spec s need limit infos p).
+Proof. exact (conj deploy_fullW_eq C01_sound_W). Qed.
+Print Assumptions C01_int64.
 
 Theorem C01_int64_domain_needed :
   ((exists p, deployW Fill max_int 0 w_fill_wrap max_int = AlreadyFilled p /\ plan_sum p <> 0) /\
@@ -136,28 +142,7 @@ Theorem C01_int64_domain_needed :
 Proof. exact (conj fill_todeploy_wraps auto_count_wraps). Qed.
 Print Assumptions C01_int64_domain_needed.
 
-(* ... and the outcome class (plan / already filled / which refusal) does not depend
-   on the sorted permutation either *)
-Theorem C01_each_class_invariant : forall infos s1 s2 need limit,
-  Permutation infos s1 -> Permutation infos s2 ->
-  Sorted (ngt each_less) s1 -> Sorted (ngt each_less) s2 -> 0 <= limit ->
-  res_class_eqb (each_from s1 need (each_limit infos limit)) (each_from s2 need (each_limit infos limit)) = true.
-Proof. exact each_class_invariant. Qed.
-Print Assumptions C01_each_class_invariant.
-
-Theorem C01_fill_class_invariant : forall infos s1 s2 need limit,
-  valid_infos infos -> Permutation infos s1 -> Permutation infos s2 ->
-  Sorted (ngt fill_less) s1 -> Sorted (ngt fill_less) s2 -> 0 <= limit ->
-  res_class_eqb (fill_from s1 need (each_limit infos limit)) (fill_from s2 need (each_limit infos limit)) = true.
-Proof. exact fill_class_invariant. Qed.
-Print Assumptions C01_fill_class_invariant.
-
-Theorem C01_drained_class_invariant : forall infos s1 s2 need total,
-  valid_infos infos -> Permutation infos s1 -> Permutation infos s2 -> 0 < need ->
-  res_class_eqb (drained_from s1 need total) (drained_from s2 need total) = true.
-Proof. exact drained_class_invariant. Qed.
-Print Assumptions C01_drained_class_invariant.
-
+(* composed deploy path (Calcium/DeployPath.v, details in Calcium/DeployPathProofs.v) *)
 (* ---- the composed deploy path (Calcium/DeployPath.v): cpumem capacity -> cobalt
    aggregation -> doGetDeployStrategy -> strategy.Deploy -> per-node Alloc.
    [path_hyps]: valid request, distinct node names, the plugin computed [caps],
@@ -165,18 +150,15 @@ Print Assumptions C01_drained_class_invariant.
    [morder] any iteration order of the merged capacity map. ---- *)
 
 (* (b) every planned allocation is accepted by the plugin on the unchanged node *)
-Theorem C01_path_alloc_accepted :
-  forall sortf base maxshare raw req orders nodes caps morder status need limit s p n,
+(* (b) for any set of plugins: the planned count is within every plugin's capacity *)
+(* (c) a node that some plugin does not offer never receives instances *)
+Theorem C01_path :
+  (forall sortf base maxshare raw req orders nodes caps morder status need limit s p n,
   path_hyps sortf base maxshare raw req orders nodes caps morder status need limit ->
   deploy_path sortf base maxshare raw orders nodes morder status s need limit = PResult (Ok p) ->
   In n nodes -> 1 <= mget p (fst n) ->
-  alloc_accepts sortf base maxshare raw orders n (mget p (fst n)) = true.
-Proof. exact deploy_path_alloc_accepted. Qed.
-Print Assumptions C01_path_alloc_accepted.
-
-(* (b) for any set of plugins: the planned count is within every plugin's capacity *)
-Theorem C01_path_within_every_plugin :
-  forall (answers : list Merge.famap) morder status need limit,
+  alloc_accepts sortf base maxshare raw orders n (mget p (fst n)) = true) /\
+  (forall (answers : list Merge.famap) morder status need limit,
   answers <> nil ->
   (forall a, In a answers -> NoDup (map fst a)) ->
   (forall a k v, In a answers -> In (k, v) a -> 0 <= Merge.n_cap v <= max_int) ->
@@ -185,13 +167,8 @@ Theorem C01_path_within_every_plugin :
   0 < need -> 0 <= limit ->
   forall s p n a i,
   manager_then_deploy answers morder status s need limit = Ok p ->
-  In a answers -> Merge.lookup n a = Some i -> 0 <= mget p n <= Merge.n_cap i.
-Proof. exact path_within_every_plugin. Qed.
-Print Assumptions C01_path_within_every_plugin.
-
-(* (c) a node that some plugin does not offer never receives instances *)
-Theorem C01_path_only_offered :
-  forall (answers : list Merge.famap) morder status need limit,
+  In a answers -> Merge.lookup n a = Some i -> 0 <= mget p n <= Merge.n_cap i) /\
+  (forall (answers : list Merge.famap) morder status need limit,
   answers <> nil ->
   (forall a, In a answers -> NoDup (map fst a)) ->
   (forall a k v, In a answers -> In (k, v) a -> 0 <= Merge.n_cap v <= max_int) ->
@@ -200,14 +177,11 @@ Theorem C01_path_only_offered :
   0 < need -> 0 <= limit ->
   forall s p n,
   manager_then_deploy answers morder status s need limit = Ok p ->
-  mhas p n = true -> forall a, In a answers -> In n (map fst a).
-Proof. exact path_only_offered. Qed.
-Print Assumptions C01_path_only_offered.
-
-Theorem C01_path_not_offered :
-  forall sortf base maxshare raw req orders nodes caps morder status need limit s p n c,
+  mhas p n = true -> forall a, In a answers -> In n (map fst a)) /\
+  (forall sortf base maxshare raw req orders nodes caps morder status need limit s p n c,
   path_hyps sortf base maxshare raw req orders nodes caps morder status need limit ->
   deploy_path sortf base maxshare raw orders nodes morder status s need limit = PResult (Ok p) ->
-  In (n, c) caps -> Calc.cap_capacity c <= 0 -> mhas p n = false /\ mget p n = 0.
-Proof. exact deploy_path_not_offered. Qed.
-Print Assumptions C01_path_not_offered.
+  In (n, c) caps -> Calc.cap_capacity c <= 0 -> mhas p n = false /\ mget p n = 0).
+Proof. exact (conj deploy_path_alloc_accepted (conj path_within_every_plugin (conj path_only_offered deploy_path_not_offered))). Qed.
+Print Assumptions C01_path.
+
